@@ -1004,6 +1004,17 @@ func (m *Flow) inlineCall(call *ast.CallExpr, fb *FuncBody, st Facts, rec bool) 
 	if exit == nil {
 		exit = Facts{} // helper never returns normally
 	}
+	// the helper's deferred calls run when it returns
+	for k := range exit {
+		if strings.HasPrefix(k, "deferred:") && !entry[k] {
+			l := strings.TrimPrefix(k, "deferred:")
+			delete(exit, k)
+			exit["called:"+l] = true
+			if m.Effect != nil {
+				m.Effect(l, nil, exit)
+			}
+		}
+	}
 	for k := range st {
 		delete(st, k)
 	}
